@@ -31,11 +31,13 @@ import (
 
 // recAcc records whether CreateLeaf was reached and what it said.
 type recAcc struct {
-	ab     *accountant.AccountingBook
-	calls  atomic.Int64
-	oks    atomic.Int64
-	called bool
-	ok     bool
+	ab        *accountant.AccountingBook
+	calls     atomic.Int64
+	oks       atomic.Int64
+	called    bool
+	ok        bool
+	balCalled bool
+	balOk     bool
 }
 
 func (r *recAcc) Address() string { return r.ab.Address() }
@@ -56,7 +58,10 @@ func (r *recAcc) ReadDAGTransactionsByAddress(ctx context.Context, a string) ([]
 	return r.ab.ReadDAGTransactionsByAddress(ctx, a)
 }
 func (r *recAcc) CalculateBalance(ctx context.Context, a string) (accountant.Balance, error) {
-	return r.ab.CalculateBalance(ctx, a)
+	b, err := r.ab.CalculateBalance(ctx, a)
+	r.balCalled = true
+	r.balOk = err == nil
+	return b, err
 }
 
 // detFlash: the flashback throttle without a time window (the real one forgets after its life window).
@@ -128,7 +133,7 @@ func newNotaryEnv(c *Ctx) *notaryEnv {
 		e.wallets = append(e.wallets, w.NewWallet())
 	}
 	w.Genesis(n, e.wallets[0].Address(), spice.Melange{Currency: 1000})
-	hc, err := cache.New(10000, 16)
+	hc, err := cache.New(1000, 1024) // big enough that no bigcache shard log wraps (capacity eviction is outside the property)
 	if err != nil {
 		panic(err)
 	}
@@ -326,11 +331,16 @@ func (e *notaryEnv) history(r *pb.SignedHash) (string, error) {
 func (e *notaryEnv) balance(r *pb.SignedHash) error {
 	b := e.cache.balOps.Load()
 	e.cache.hit = false
+	e.acc.balCalled = false
 	_, err := e.srv.Balance(e.ctx, r)
 	if err == nil && !e.cache.hit {
 		e.settle(0, b+1)
 	}
-	e.c.Line("BALANCE %s | %s", shFields(r), respTag(err))
+	lb := "-" // the ledger was not asked
+	if e.acc.balCalled {
+		lb = fmt.Sprint(b2i(e.acc.balOk))
+	}
+	e.c.Line("BALANCE %s | %s %s", shFields(r), respTag(err), lb)
 	return err
 }
 
@@ -349,7 +359,7 @@ func init() {
 		c.Rep.Rule = "random call sequences (propose / confirm / reject / data / waiting / history / balance / saved) by honest clients and by dishonest ones (signature by the wrong key, tampered content, missing / foreign / stale / re-issued challenge, cross-wired address, replayed requests, never-proposed confirmations, issuer or stranger rejecting) against the real notary service; then concurrent duplicate confirmations and rejections; non-trivial = distinct (call, client behaviour, response)"
 		steps, expiries, rounds := 260, 2, 2
 		if c.Tier == "thorough" {
-			steps, expiries, rounds = 1500, 6, 6
+			steps, expiries, rounds = 400, 2, 16
 		}
 		for round := 0; round < rounds; round++ {
 			e := newNotaryEnv(c)
